@@ -995,6 +995,25 @@ def tensor_bytes(hc) -> list[bytes]:
     return out
 
 
+def invoke_save(hc, model, objs, out, callback, max_workers, cap):
+    """The entry point named by hc["entry"]:
+       "unload"  (default) external_data.unload_from_model on a model (zero-byte initializers are never externalised)
+       "convert" external_data.convert_tensors_to_external on the tensor list (zero-length tensors included)
+       "write"   external_data._write_external_tensors (what unload_from_model calls; honours max_shard)"""
+    from onnx_ir import external_data as ed
+    entry = hc.get("entry", "unload")
+    if entry == "unload":
+        return ed.unload_from_model(model, out, "m.data", max_shard_size_bytes=hc["max_shard"], callback=callback,
+                                    max_workers=max_workers, max_in_flight_bytes=cap)
+    tensors = [objs[t["obj"]] for t in hc["tensors"]]
+    if entry == "convert":
+        return ed.convert_tensors_to_external(tensors, out, "m.data", callback=callback, max_workers=max_workers,
+                                              max_in_flight_bytes=cap)
+    return ed._write_external_tensors(tensors, out, "m.data", max_shard_size_bytes=hc["max_shard"], callback=callback,
+                                      max_workers=max_workers, max_in_flight_bytes=cap, alignment=None,
+                                      align_threshold=ed._DEFAULT_ALIGN_THRESHOLD)
+
+
 def build_model(hc, workdir, with_failures=True):
     """A model whose initializers w0..wn-1 hold the configured tensors.  Returns (model, objects by obj id)."""
     import onnx_ir as ir
@@ -1062,7 +1081,7 @@ def reference(hc, workdir) -> dict:
     names pools / workers the way the model does."""
     from onnx_ir import external_data as ed
     wd = os.path.join(workdir, "ref")
-    model, _ = build_model(hc, wd, with_failures=False)
+    model, ref_objs = build_model(hc, wd, with_failures=False)
     out = os.path.join(wd, "out")
     os.makedirs(out)
     layout = {}
@@ -1070,7 +1089,7 @@ def reference(hc, workdir) -> dict:
     def cb(tensor, info):
         layout[info.index] = (info.filename, info.offset)
     with _chunk(hc):
-        ed.unload_from_model(model, out, "m.data", max_shard_size_bytes=hc["max_shard"], callback=cb)
+        invoke_save(hc, model, ref_objs, out, cb, None, ed._DEFAULT_MAX_IN_FLIGHT_BYTES)
     files = _list_files(out)
     shutil.rmtree(wd, ignore_errors=True)
     n = len(hc["tensors"])
@@ -1209,8 +1228,7 @@ def run_coop(hc, plan, workdir, chooser, pickfn=None, keyfn=None, max_steps=4000
     def main():
         me = sched.cur
         try:
-            ed.unload_from_model(model, out, "m.data", max_shard_size_bytes=hc["max_shard"], callback=callback,
-                                 max_workers=hc["max_workers"], max_in_flight_bytes=hc["cap"])
+            invoke_save(hc, model, objs, out, callback, hc["max_workers"], hc["cap"])
             result["outcome"] = "ok"
         except _Abort:
             raise
@@ -1494,6 +1512,23 @@ def gen_hc(rng, size="small", fail=None):
             _inject_failure(rng, tensors, rng.randrange(len(tensors)))
         return {"tensors": tensors, "max_workers": shards * rng.choice([3, 3, 4]), "cap": cap,
                 "max_shard": unit * per[0], "chunk": None, "tseed": rng.randrange(1 << 30)}
+    if size == "zerolen":
+        # zero-element tensors in the list: only reachable through convert_tensors_to_external /
+        # _write_external_tensors (unload_from_model filters nbytes > threshold)
+        n, mw = rng.choice([3, 4, 5]), rng.choice([2, 3, 4])
+        cap = rng.choice([1, 2, 4, 8])
+        lens = [rng.choice([1, 2, 3, 5]) for _ in range(n)]
+        for i in rng.sample(range(n), k=rng.choice([1, 1, 2])):
+            lens[i] = 0
+        tensors = [{"len": lens[i], "obj": i, "ext": False, "cbfail": False, "wfail": False} for i in range(n)]
+        if rng.random() < 0.3:
+            tensors.append(dict(tensors[rng.randrange(n)]))          # an object used twice (may be the empty one)
+        if fail if fail is not None else rng.random() < 0.25:
+            _inject_failure(rng, tensors, rng.randrange(len(tensors)))
+        entry = rng.choice(["convert", "convert", "write"])
+        return {"tensors": tensors, "max_workers": mw, "cap": cap,
+                "max_shard": rng.choice([None, 4, 6]) if entry == "write" else None, "chunk": None,
+                "tseed": rng.randrange(1 << 30), "entry": entry}
     if size == "extchunk":
         # ExternalTensor sources longer than the budget, copied through userspace in chunks <= budget / 2
         n, mw = rng.choice([3, 4]), rng.choice([2, 3, 4])
@@ -1639,11 +1674,9 @@ def soak(hc, plan, workdir, rng, runs) -> list[str]:
         _Flag.handles = []
         ed.open = _failing_open(_Flag, hc)
 
-        def call(box=box, model=model, out=out, callback=callback):
+        def call(box=box, model=model, out=out, callback=callback, objs=objs):
             try:
-                ed.unload_from_model(model, out, "m.data", max_shard_size_bytes=hc["max_shard"],
-                                     callback=callback, max_workers=hc["max_workers"],
-                                     max_in_flight_bytes=hc["cap"])
+                invoke_save(hc, model, objs, out, callback, hc["max_workers"], hc["cap"])
                 box["outcome"] = "ok"
             except BaseException as e:  # noqa: BLE001
                 box["outcome"] = "raise:" + type(e).__name__
@@ -1907,12 +1940,12 @@ def run(ck) -> None:
             break
     ck.coverage["exhaustive_exploration"] = exhausted
     # 4. random and PCT schedules over wider configurations
-    n_cfg = 81 if not thorough else 550
+    n_cfg = 80 if not thorough else 550
     per_cfg = 10 if not thorough else 40
     for i in range(n_cfg):
         if col.failures and len(col.failures) > 3:
             break
-        hc = gen_hc(rng, ["large", "small", "twolevel", "oneshard", "small", "extchunk", "twolevel", "small", "oneshard"][i % 9])
+        hc = gen_hc(rng, ["large", "small", "twolevel", "oneshard", "zerolen", "small", "extchunk", "twolevel", "zerolen", "oneshard"][i % 10])
         try:
             plan = col.plan(hc)
         except Exception as e:  # noqa: BLE001
@@ -1928,6 +1961,9 @@ def run(ck) -> None:
             ck.hist("configs_special", f"fault kind {kind}")
         if hc.get("open_fail"):
             ck.hist("configs_special", "fault kind EMFILE on worker open")
+        if hc.get("entry", "unload") != "unload":
+            ck.hist("configs_special", f"entry point {hc['entry']}, zero-length tensors: "
+                                       f"{sum(1 for t in hc['tensors'] if t['len'] == 0)}")
         for j in range(per_cfg):
             r = random.Random(rng.random())
             chooser = pct_chooser(r, depth=r.choice([1, 2, 3, 5])) if j % 2 else random_chooser(r)
@@ -1959,7 +1995,7 @@ def run(ck) -> None:
     if col.failures:
         soak_cfgs = 0              # already failing under a replayable schedule: report that
     for i in range(soak_cfgs):
-        hc = gen_hc(rng, ["twolevel", "large", "oneshard", "extchunk"][i % 4])
+        hc = gen_hc(rng, ["twolevel", "large", "oneshard", "extchunk", "zerolen"][i % 5])
         plan = col.plan(hc)
         bad = soak(hc, plan, col.wd, rng, soak_runs)
         ck.count(soak_runs)
@@ -2001,7 +2037,7 @@ def search(ck, col) -> None:
     i = 0
     while time.time() < deadline:
         i += 1
-        hc = gen_hc(rng, rng.choice(["tiny", "small", "small", "large", "twolevel", "oneshard", "extchunk"]))
+        hc = gen_hc(rng, rng.choice(["tiny", "small", "small", "large", "twolevel", "oneshard", "extchunk", "zerolen"]))
         try:
             plan = col.plan(hc)
         except Exception:  # noqa: BLE001
